@@ -1,0 +1,71 @@
+//! Verification hooks (only compiled with the `verif-hooks` cargo feature).
+//!
+//! A small event recorder used by the external verification harness to observe values that are
+//! otherwise private to a sampler step (momenta, uniforms, tree statistics, reporter bookkeeping).
+//! Nothing in here changes the behaviour of the library.
+
+use std::cell::RefCell;
+use std::sync::Mutex;
+
+thread_local! {
+    static TL_EVENTS: RefCell<Option<Vec<String>>> = const { RefCell::new(None) };
+}
+
+static GLOBAL_EVENTS: Mutex<Option<Vec<String>>> = Mutex::new(None);
+
+/// Start recording events pushed from the current thread.
+pub fn tl_enable() {
+    TL_EVENTS.with(|e| *e.borrow_mut() = Some(Vec::new()));
+}
+
+/// Stop recording on the current thread and return what was recorded.
+pub fn tl_drain() -> Vec<String> {
+    TL_EVENTS.with(|e| e.borrow_mut().take().unwrap_or_default())
+}
+
+/// Start recording events pushed from any thread.
+pub fn global_enable() {
+    *GLOBAL_EVENTS.lock().unwrap() = Some(Vec::new());
+}
+
+/// Stop the process-wide recording and return what was recorded.
+pub fn global_drain() -> Vec<String> {
+    GLOBAL_EVENTS.lock().unwrap().take().unwrap_or_default()
+}
+
+/// Is any recorder listening for events from this thread?
+pub fn active() -> bool {
+    TL_EVENTS.with(|e| e.borrow().is_some()) || GLOBAL_EVENTS.lock().unwrap().is_some()
+}
+
+/// Record one event (no-op when no recorder is enabled).
+pub fn push(ev: impl FnOnce() -> String) {
+    let tl = TL_EVENTS.with(|e| e.borrow().is_some());
+    if tl {
+        let s = ev();
+        TL_EVENTS.with(|e| {
+            if let Some(v) = e.borrow_mut().as_mut() {
+                v.push(s)
+            }
+        });
+        return;
+    }
+    let mut g = GLOBAL_EVENTS.lock().unwrap();
+    if let Some(v) = g.as_mut() {
+        v.push(ev());
+    }
+}
+
+/// Bit pattern of a float, formatted as 16 hex digits of its `f64` widening.
+pub fn f64_hex(x: f64) -> String {
+    format!("{:016x}", x.to_bits())
+}
+
+/// Flatten a tensor to `f64`s (row-major) and format them as hex bit patterns.
+pub fn tensor_hex<B: burn::prelude::Backend, const D: usize>(
+    t: &burn::tensor::Tensor<B, D>,
+) -> String {
+    let data = t.to_data().convert::<f64>();
+    let v: Vec<f64> = data.to_vec().unwrap();
+    v.iter().map(|x| f64_hex(*x)).collect::<Vec<_>>().join(",")
+}
